@@ -436,6 +436,13 @@ impl<'l> StringTokenizer<'l> {
 
         'outer: loop {
             if let Some(next) = self.scanner.peek() {
+                if base == 16 && next.is_ascii_hexdigit() {
+                    // in a hex literal a-f (including e) are digits
+                    working.push(next);
+                    self.scanner.next();
+                    continue 'outer;
+                }
+
                 match next {
                     '0' => {
                         working.push(next);
